@@ -52,7 +52,8 @@ def strategy_(g):
         case["eb"]["off_id"] = 0
         case["struct"] = g.choice(["ids", "ids-count", "class", "subclass", "info-shape", "estimate-type", "offset-type", "offset-id", "estimate-pose-type"])
     else:
-        case["g"] = GG.gen(g, n_pose=(2, 5), n_lm=(0, 2), n_loops=(0, 2), conds=(1.0, 1e2), features=("parallel", "reversed", "permute", "ids", "custom", "quat-signs", "lm_odo"), custom_flavour="num")
+        nz = g.choice([0.05, 1e-3, 1e-5, 1e-7])
+        case["g"] = GG.gen(g, n_pose=(2, 5), n_lm=(0, 2), n_loops=(0, 2), conds=(1.0, 1e2), noise=(nz, nz), pert=(g.choice([0.3, 0.0]),) * 2, world=(1.0, 10.0, 100.0), features=("parallel", "reversed", "permute", "ids", "custom", "quat-signs", "lm_odo"), custom_flavour="num")
         case["struct"] = g.choice(["drop-edge", "add-vertex", "swap-vertices", "swap-edges", "vertex-id", "edge-class"])
         case["pre"] = g.choice(["none", "none", "chi2-both", "chi2-one", "optimize-both"])
     return case
